@@ -129,6 +129,17 @@ func spec_size(a *AppendableFile) int64 {
 //@   loop 1 invariant cfg: aof.f == old(aof.f) && aof.readOnly == old(aof.readOnly) && aof.retryableSync == old(aof.retryableSync) && aof.autoSync == old(aof.autoSync) && aof.writeBuffer == old(aof.writeBuffer) && aof.compressionFormat == old(aof.compressionFormat) && aof.closed == old(aof.closed)
 //@   loop 1 decreases len(bs) - n
 //@   loop 1 assigns aof, aof.writeBuffer
+// con-c17c (byte CONTENTS, see zz_verif_contracts_c17c.go): when bs fits into the free part of the buffer no flush
+// happens, the window grows by exactly bs and every byte below the old unwritten cursor is unchanged.
+//@   ensures c17c_fit: len(bs) <= old(len(aof.writeBuffer) - aof.wbufUnwrittenOffset) ==> err == nil && n == len(bs) && aof.wbufUnwrittenOffset == old(aof.wbufUnwrittenOffset) + len(bs) && aof.wbufFlushedOffset == old(aof.wbufFlushedOffset) && aof.fileOffset == old(aof.fileOffset) && aof.seekRequired == old(aof.seekRequired)
+//@   ensures c17c_new: !sameobj(bs, aof) && !sameobj(bs, old(aof.writeBuffer)) && len(bs) <= old(len(aof.writeBuffer) - aof.wbufUnwrittenOffset) ==> forall(k, 0, len(bs), aof.writeBuffer[old(aof.wbufUnwrittenOffset):][k] == bs[k])
+//@   ensures c17c_keep: !sameobj(bs, aof) && !sameobj(bs, old(aof.writeBuffer)) && len(bs) <= old(len(aof.writeBuffer) - aof.wbufUnwrittenOffset) ==> forall(k, 0, old(aof.wbufUnwrittenOffset), aof.writeBuffer[k] == old(aof.writeBuffer[k]))
+//@   loop 1 invariant c17c_err: err == nil
+//@   loop 1 invariant c17c_once: len(bs) <= old(len(aof.writeBuffer) - aof.wbufUnwrittenOffset) ==> (n < len(bs) ==> n == 0 && aof.wbufUnwrittenOffset == old(aof.wbufUnwrittenOffset)) && (!(n < len(bs)) ==> n == len(bs) && aof.wbufUnwrittenOffset == old(aof.wbufUnwrittenOffset) + len(bs))
+//@   loop 1 invariant c17c_room: len(bs) <= old(len(aof.writeBuffer) - aof.wbufUnwrittenOffset) && n < len(bs) ==> len(aof.writeBuffer) - aof.wbufUnwrittenOffset != 0 && len(bs) - n <= len(aof.writeBuffer) - aof.wbufUnwrittenOffset
+//@   loop 1 invariant c17c_cur: len(bs) <= old(len(aof.writeBuffer) - aof.wbufUnwrittenOffset) ==> aof.wbufFlushedOffset == old(aof.wbufFlushedOffset) && aof.fileOffset == old(aof.fileOffset) && aof.seekRequired == old(aof.seekRequired)
+//@   loop 1 invariant c17c_new: !sameobj(bs, aof) && !sameobj(bs, old(aof.writeBuffer)) && len(bs) <= old(len(aof.writeBuffer) - aof.wbufUnwrittenOffset) && n == len(bs) ==> forall(k, 0, len(bs), aof.writeBuffer[old(aof.wbufUnwrittenOffset):][k] == bs[k])
+//@   loop 1 invariant c17c_keep: !sameobj(bs, aof) && !sameobj(bs, old(aof.writeBuffer)) && len(bs) <= old(len(aof.writeBuffer) - aof.wbufUnwrittenOffset) ==> forall(k, 0, old(aof.wbufUnwrittenOffset), aof.writeBuffer[k] == old(aof.writeBuffer[k]))
 
 // Append (uncompressed): returns the previous size as offset, the log grows by the n bytes written.
 //@ func (*AppendableFile).Append
@@ -145,6 +156,13 @@ func spec_size(a *AppendableFile) int64 {
 //@   ensures grow: old(aof.compressionFormat) == 0 ==> spec_sz(aof.fileOffset, aof.wbufUnwrittenOffset, aof.wbufFlushedOffset) == old(spec_sz(aof.fileOffset, aof.wbufUnwrittenOffset, aof.wbufFlushedOffset)) + int64(n)
 //@   ensures full: old(aof.compressionFormat) == 0 ==> err == nil ==> n == len(bs)
 //@   ensures cfg: old(aof.compressionFormat) == 0 ==> aof.f == old(aof.f) && aof.readOnly == old(aof.readOnly) && aof.retryableSync == old(aof.retryableSync) && aof.autoSync == old(aof.autoSync) && aof.writeBuffer == old(aof.writeBuffer) && aof.compressionFormat == old(aof.compressionFormat) && aof.closed == old(aof.closed)
+// con-c17c (byte CONTENTS): an append that fits into the free part of the write buffer only extends the window by bs.
+// The frame (`assigns`) is checked at the uncompressed return sites; the compressed ones are excluded (external calls).
+//@   ensures c17c_fit: old(aof.compressionFormat) == 0 && !old(aof.closed) && !old(aof.readOnly) && len(bs) > 0 && len(bs) <= old(len(aof.writeBuffer) - aof.wbufUnwrittenOffset) ==> err == nil && n == len(bs) && aof.wbufUnwrittenOffset == old(aof.wbufUnwrittenOffset) + len(bs) && aof.wbufFlushedOffset == old(aof.wbufFlushedOffset) && aof.fileOffset == old(aof.fileOffset) && aof.seekRequired == old(aof.seekRequired)
+//@   ensures c17c_new: !sameobj(bs, aof) && !sameobj(bs, old(aof.writeBuffer)) && old(aof.compressionFormat) == 0 && !old(aof.closed) && !old(aof.readOnly) && len(bs) > 0 && len(bs) <= old(len(aof.writeBuffer) - aof.wbufUnwrittenOffset) ==> forall(k, 0, len(bs), aof.writeBuffer[old(aof.wbufUnwrittenOffset):][k] == bs[k])
+//@   ensures c17c_keep: !sameobj(bs, aof) && !sameobj(bs, old(aof.writeBuffer)) && old(aof.compressionFormat) == 0 && !old(aof.closed) && !old(aof.readOnly) && len(bs) > 0 && len(bs) <= old(len(aof.writeBuffer) - aof.wbufUnwrittenOffset) ==> forall(k, 0, old(aof.wbufUnwrittenOffset), aof.writeBuffer[k] == old(aof.writeBuffer[k]))
+//@   ensures c17c_off: old(aof.compressionFormat) == 0 && !old(aof.closed) && !old(aof.readOnly) && len(bs) > 0 && len(bs) <= old(len(aof.writeBuffer) - aof.wbufUnwrittenOffset) ==> off >= aof.fileOffset && aof.wbufFlushedOffset + int(off - aof.fileOffset) == old(aof.wbufUnwrittenOffset) && (aof.wbufUnwrittenOffset - aof.wbufFlushedOffset) - int(off - aof.fileOffset) == len(bs)
+//@   assigns aof, aof.writeBuffer
 
 // SetOffset(o): truncates the log to o; error iff o is outside [0, size] (on an open writable file); a failed call
 // leaves the log unchanged.
@@ -160,6 +178,10 @@ func spec_size(a *AppendableFile) int64 {
 //@   ensures neg: newOffset < 0 ==> r0 != nil
 //@   ensures cfg: aof.f == old(aof.f) && aof.readOnly == old(aof.readOnly) && aof.retryableSync == old(aof.retryableSync) && aof.autoSync == old(aof.autoSync) && aof.writeBuffer == old(aof.writeBuffer) && aof.compressionFormat == old(aof.compressionFormat) && aof.closed == old(aof.closed)
 //@   assigns aof
+// con-c17c (byte CONTENTS): SetOffset never writes the buffer (`assigns aof`); the retained window is a prefix of the old
+// one (in-memory truncation: same flushed cursor, smaller unwritten cursor) or empty (rewind into the file).
+//@   ensures c17c_prefix: r0 == nil && newOffset >= old(aof.fileOffset) ==> aof.fileOffset == old(aof.fileOffset) && aof.wbufFlushedOffset == old(aof.wbufFlushedOffset) && aof.wbufUnwrittenOffset <= old(aof.wbufUnwrittenOffset) && aof.seekRequired == old(aof.seekRequired)
+//@   ensures c17c_rewind: r0 == nil && newOffset < old(aof.fileOffset) ==> aof.fileOffset == newOffset && aof.wbufFlushedOffset == 0 && aof.wbufUnwrittenOffset == 0 && aof.seekRequired
 
 //@ func (*AppendableFile).Size
 //@   requires aof.f != nil && 0 <= aof.wbufFlushedOffset && aof.wbufFlushedOffset <= aof.wbufUnwrittenOffset && aof.wbufUnwrittenOffset <= len(aof.writeBuffer) && (aof.readOnly || len(aof.writeBuffer) > 0) && aof.fileOffset >= int64(aof.wbufFlushedOffset) && aof.fileOffset <= spec_maxLog && aof.fileOffset + int64(aof.wbufUnwrittenOffset - aof.wbufFlushedOffset) <= spec_maxLog && (aof.retryableSync || aof.wbufFlushedOffset == 0 || aof.wbufFlushedOffset < len(aof.writeBuffer))
@@ -213,6 +235,13 @@ func spec_size(a *AppendableFile) int64 {
 //@   ensures none: off < 0 || off > spec_sz(aof.fileOffset, aof.wbufUnwrittenOffset, aof.wbufFlushedOffset) ==> n == 0 && err != nil
 //@   ensures same: aof.fileOffset == old(aof.fileOffset) && aof.wbufFlushedOffset == old(aof.wbufFlushedOffset) && aof.wbufUnwrittenOffset == old(aof.wbufUnwrittenOffset) && aof.seekRequired == old(aof.seekRequired) && aof.f == old(aof.f) && aof.readOnly == old(aof.readOnly) && aof.retryableSync == old(aof.retryableSync) && aof.autoSync == old(aof.autoSync) && aof.writeBuffer == old(aof.writeBuffer) && aof.compressionFormat == old(aof.compressionFormat) && aof.closed == old(aof.closed)
 //@   assigns bs
+// con-c17c (byte CONTENTS): the bytes returned for logical offsets >= fileOffset are the bytes of the unflushed window
+// writeBuffer[flushed:unwritten] at the corresponding positions (logical offset of writeBuffer[flushed+j] = fileOffset+j).
+// c17c_buf: read that starts in the window; c17c_span: read that starts in the file and continues in the window.
+//@   ensures c17c_buf: !sameobj(bs, old(aof.writeBuffer)) && off >= old(aof.fileOffset) ==> forall(k, 0, n, bs[k] == old(aof.writeBuffer)[old(aof.wbufFlushedOffset + int(off - aof.fileOffset)):][k])
+//@   ensures c17c_span: !sameobj(bs, old(aof.writeBuffer)) && 0 <= off && off < old(aof.fileOffset) && int64(len(bs)) > old(aof.fileOffset - off) ==> forall(k, old(int(aof.fileOffset-off)), n, bs[k] == old(aof.writeBuffer)[old(aof.wbufFlushedOffset):][k-old(int(aof.fileOffset-off))])
+//@   ensures c17c_fullbuf: off >= old(aof.fileOffset) && len(bs) <= old((aof.wbufUnwrittenOffset - aof.wbufFlushedOffset) - int(off - aof.fileOffset)) ==> err == nil && n == len(bs)
+//@   ensures c17c_span1: !sameobj(bs, old(aof.writeBuffer)) && 0 <= off && off < old(aof.fileOffset) && int64(n) > old(aof.fileOffset - off) ==> bs[old(int(aof.fileOffset-off))] == old(aof.writeBuffer)[old(aof.wbufFlushedOffset)]
 
 //@ func (*AppendableFile).ReadAt
 //@   requires aof.f != nil && 0 <= aof.wbufFlushedOffset && aof.wbufFlushedOffset <= aof.wbufUnwrittenOffset && aof.wbufUnwrittenOffset <= len(aof.writeBuffer) && (aof.readOnly || len(aof.writeBuffer) > 0) && aof.fileOffset >= int64(aof.wbufFlushedOffset) && aof.fileOffset <= spec_maxLog && aof.fileOffset + int64(aof.wbufUnwrittenOffset - aof.wbufFlushedOffset) <= spec_maxLog && (aof.retryableSync || aof.wbufFlushedOffset == 0 || aof.wbufFlushedOffset < len(aof.writeBuffer))
@@ -221,3 +250,8 @@ func spec_size(a *AppendableFile) int64 {
 //@   ensures full: old(aof.compressionFormat) == 0 ==> err == nil ==> n == len(bs)
 //@   ensures bound: old(aof.compressionFormat) == 0 ==> off >= 0 && off <= spec_sz(aof.fileOffset, aof.wbufUnwrittenOffset, aof.wbufFlushedOffset) ==> int64(n) <= spec_sz(aof.fileOffset, aof.wbufUnwrittenOffset, aof.wbufFlushedOffset) - off
 //@   ensures same: old(aof.compressionFormat) == 0 ==> aof.fileOffset == old(aof.fileOffset) && aof.wbufFlushedOffset == old(aof.wbufFlushedOffset) && aof.wbufUnwrittenOffset == old(aof.wbufUnwrittenOffset) && aof.seekRequired == old(aof.seekRequired) && aof.f == old(aof.f) && aof.readOnly == old(aof.readOnly) && aof.retryableSync == old(aof.retryableSync) && aof.autoSync == old(aof.autoSync) && aof.writeBuffer == old(aof.writeBuffer) && aof.compressionFormat == old(aof.compressionFormat) && aof.closed == old(aof.closed)
+// con-c17c (byte CONTENTS, uncompressed): same clauses as readAt; frame checked at the uncompressed return site.
+//@   ensures c17c_buf: old(aof.compressionFormat) == 0 && !sameobj(bs, old(aof.writeBuffer)) && off >= old(aof.fileOffset) ==> forall(k, 0, n, bs[k] == old(aof.writeBuffer)[old(aof.wbufFlushedOffset + int(off - aof.fileOffset)):][k])
+//@   ensures c17c_span: old(aof.compressionFormat) == 0 && !sameobj(bs, old(aof.writeBuffer)) && 0 <= off && off < old(aof.fileOffset) && int64(len(bs)) > old(aof.fileOffset - off) ==> forall(k, old(int(aof.fileOffset-off)), n, bs[k] == old(aof.writeBuffer)[old(aof.wbufFlushedOffset):][k-old(int(aof.fileOffset-off))])
+//@   ensures c17c_fullbuf: old(aof.compressionFormat) == 0 && !old(aof.closed) && bs != nil && off >= old(aof.fileOffset) && len(bs) <= old((aof.wbufUnwrittenOffset - aof.wbufFlushedOffset) - int(off - aof.fileOffset)) ==> err == nil && n == len(bs)
+//@   assigns bs, aof
